@@ -4,6 +4,7 @@ CONSTANTS
   BinOps <- AllBin
   UnOps <- AllUn
   MaxDepth = 1
+  FloorDiv = TRUE
 INVARIANT DivModLaw
 INVARIANT BitLaw
 INVARIANT ShiftLaw
